@@ -94,6 +94,27 @@ fn main() {
                 println!("{}", id);
             }
         }
+        "xmlcheck-dir" => {
+            // oracle validation (not a property check): verdict of the hand-written XML checker for
+            // every file of a directory, one `name OK|ERR` line each (tools/xml_crosscheck.py
+            // compares them with Python's expat)
+            let dir = args.get(1).map(|s| s.as_str()).unwrap_or(".");
+            let mut names: Vec<_> = std::fs::read_dir(dir).map(|rd| rd.flatten().map(|e| e.path()).collect()).unwrap_or_default();
+            names.sort();
+            for p in names {
+                let verdict = match std::fs::read(&p).ok().and_then(|b| String::from_utf8(b).ok()) {
+                    Some(t) => {
+                        if xmlcheck::parse(&t).is_ok() {
+                            "OK"
+                        } else {
+                            "ERR"
+                        }
+                    }
+                    None => "ERR",
+                };
+                println!("{} {}", p.file_name().map(|s| s.to_string_lossy().to_string()).unwrap_or_default(), verdict);
+            }
+        }
         "replay" => {
             let path = Path::new(args.get(1).map(|s| s.as_str()).unwrap_or(""));
             let txt = match std::fs::read_to_string(path) {
